@@ -1308,8 +1308,30 @@ func (ex *Exec) loopEnv(st *State, header *ssa.BasicBlock, lc *LoopContract) *Sp
 	}
 	env := &SpecEnv{ex: ex, st: st, vars: vars, cur: st, old: entryView{st}, pkg: fr.fn.Pkg.Pkg, nextOld: st.next0}
 	// a map iterator of the function: iterpos (keys delivered so far), itercard, iterkey(q), iterord(k)
+	// With several map iterations in one function the names belong to the iteration this loop advances
+	// (the `next` of its header); a loop that advances none sees the iteration only if there is exactly one.
+	var own ssa.Value
+	for _, in := range header.Instrs {
+		if nx, ok := in.(*ssa.Next); ok {
+			own = nx.Iter
+		}
+	}
+	nIter := 0
 	for v, val := range fr.vals {
 		if _, ok := v.(*ssa.Range); ok && val.Iter != nil && val.Addr != nil {
+			if _, ok := st.cells[val.Addr.Cell]; ok {
+				nIter++
+			}
+		}
+	}
+	for v, val := range fr.vals {
+		if _, ok := v.(*ssa.Range); ok && val.Iter != nil && val.Addr != nil {
+			if own != nil && v != own {
+				continue
+			}
+			if own == nil && nIter != 1 {
+				continue
+			}
 			if c, ok := st.cells[val.Addr.Cell]; ok {
 				vars["iterpos"] = c
 				vars["itercard"] = scalar(val.Iter.Card, types.Typ[types.Int])
